@@ -3,6 +3,7 @@
 package c05
 
 import (
+	"os"
 	"fmt"
 	"sort"
 	"sync"
@@ -136,7 +137,7 @@ func install(b *mocker.Builder, cfg seqCfg, iv *I) func(key int) int {
 		case "func":
 			return S1(arg)
 		case "method":
-			return (&T{v: 3}).M(arg)
+			return recvT.M(arg)
 		case "iface":
 			return (*iv).Get(arg)
 		default:
@@ -235,6 +236,10 @@ func maxLenOf(c seqCfg) int {
 	return m
 }
 
+// recvT is a heap object: a receiver living in the caller's frame would bring the caller-frame pointer hazard of the
+// logging wrapper (known finding of C19) into the debug-logging pass as a race report
+var recvT = &T{v: 3}
+
 type cin struct{ key int }
 
 func TestC05Concurrent(t *testing.T) {
@@ -245,6 +250,12 @@ func TestC05Concurrent(t *testing.T) {
 	n := vmon.EnvInt("VERIF_C05_HIST", 60)
 	maxG := vmon.EnvInt("VERIF_C05_MAXG", 32)
 	forms := []string{"func", "method", "iface", "func2"}
+	if os.Getenv("VERIF_C05_DEBUG") == "1" {
+		// with debug logging every replacement runs behind goom's logging wrapper: same specification
+		mocker.OpenDebug()
+		defer mocker.CloseDebug()
+		rep.Stat("histories_with_debug_logging", int64(n))
+	}
 	for h := 0; h < n; h++ {
 		form := forms[h%len(forms)]
 		cfg := genCfg(rng, form, 12)
@@ -389,7 +400,7 @@ func TestC05Concurrent(t *testing.T) {
 			},
 			Equal: func(a, b interface{}) bool { return a.(int) == b.(int) },
 		}
-		res, _ := porcupine.CheckOperationsVerbose(model, all, 20*time.Second)
+		res, _ := porcupine.CheckOperationsVerbose(model, all, time.Duration(vmon.EnvInt("VERIF_C05_PTIMEOUT", 20))*time.Second)
 		switch res {
 		case porcupine.Ok:
 			rep.Stat("porcupine_ok", 1)
